@@ -67,7 +67,7 @@ def lock? : List String → Option Lock
 
 /-- harness request name ↦ request kind of the generated table -/
 def reqKind? : String → Option Kind
-  | "validate" | "signholder" | "signcp" | "paycp" | "paycp1" | "payhv" | "hval0" | "hval1" | "refused" => some .channel_request
+  | "validate" | "signholder" | "signcp" | "paycp" | "paycp1" | "payhv" | "hval0" | "hval1" | "refused" | "sweep0" | "sweep1" => some .channel_request
   | "point" => some .channel_base_request
   | "forget" | "forgetdb" => some .forget_channel
   | "balance" => some .channel_balance
@@ -96,6 +96,8 @@ def reqKind? : String → Option Kind
 def reqArm? : String → Option String
   | "hval0" | "hval1" => some "Channel.ValidateCommitmentTx2"
   | "hsignlocal" => some "Channel.SignLocalCommitmentTx2"
+  -- `node.with_channel(|chan| chan.sign_delayed_sweep(..))` is the whole lock behaviour of this arm
+  | "sweep0" | "sweep1" => some "Channel.SignDelayedPaymentToUs"
   | "rprekeysend" => some "Root.PreapproveKeysend"
   | "rpreinvoice" => some "Root.PreapproveInvoice"
   | "rnewchan" => some "Root.NewChannel"
